@@ -73,6 +73,9 @@ type Options struct {
 
 const claimChunk = 4
 
+// DumpAllTraces keeps a sample of every distinct trace (debugging aid).
+var DumpAllTraces = false
+
 // TraceKey canonicalises the observation trace of an execution.
 func TraceKey(r *Result) string {
 	var sb strings.Builder
@@ -174,7 +177,7 @@ func ExploreScenario(sc *Scenario, opt Options) (*Stats, []Found, error) {
 			}
 			st.Decisions += int64(len(r.Decisions) - len(it.prefix))
 			st.Traces[key]++
-			if st.Traces[key] == 1 && len(st.Sample) < 3 {
+			if st.Traces[key] == 1 && (len(st.Sample) < 3 || DumpAllTraces) {
 				st.Sample = append(st.Sample, fmt.Sprintf("choices=%v events=%s", chosen(r), strings.Join(EventNames(r), "; ")))
 			}
 			if opt.OnExec != nil {
